@@ -166,6 +166,12 @@ func genC04ImageBlock(t *rapid.T, l string) []hx.Req {
 		li := fmt.Sprintf("%s-b%d", l, i)
 		off := uint64(rapid.SampledFrom([]int{0, 1, 23, 24, 2047, 2048, 2049, 0xF6F, 0xF70, 0xF71, 0xF80, 0xFFF, 0x1000, 0x106F, 0x1070, 0x1071, 6143, 6144, 6145, 8191, 16 * 2048, 32767, 32768, 65535, 65536}).Draw(t, li+"-off"))
 		nn := uint32(rapid.SampledFrom([]int{1, 15, 16, 17, 255, 256, 257, 2047, 2048, 2049, 4096, 5000, 65535, 65536, 70000, 0x7fffffff}).Draw(t, li+"-n"))
+		if rapid.IntRange(0, 4).Draw(t, li+"-far") == 0 {
+			off = hx.GenHugeOffset(t, li+"-faroff") // far behind the end of the image: where sector counters wrap
+			if nn > 70000 {
+				nn = 200
+			}
+		}
 		reqs = append(reqs, hx.Req{Op: "READ_FILE", N: nn, Off: off})
 	}
 	return reqs
@@ -191,6 +197,9 @@ func genC04Req(t *rapid.T, l string) hx.Req {
 			n = uint32(rapid.IntRange(0, 70000).Draw(t, l+"-ns"))
 		}
 		off := rapid.SampledFrom(huge64).Draw(t, l+"-off")
+		if rapid.IntRange(0, 2).Draw(t, l+"-offpow") == 0 {
+			off = hx.GenHugeOffset(t, l+"-offhuge")
+		}
 		if rapid.Bool().Draw(t, l+"-offsmall") {
 			off = uint64(rapid.IntRange(0, 40000).Draw(t, l+"-os"))
 		}
@@ -490,6 +499,9 @@ func genC04Content(t *rapid.T) c04Content {
 		l := fmt.Sprintf("op%d", i)
 		c.Ops = append(c.Ops, c09Op{Kind: rapid.SampledFrom([]string{"read", "seek", "readat"}).Draw(t, l+"-k"), N: rapid.SampledFrom([]int{0, 1, 17, 2047, 2048, 2049, 70000}).Draw(t, l+"-n"),
 			Off: rapid.SampledFrom([]int64{-1, 0, 1, 0xF6F, 0xF70, 0x1070, 2047, 2048, 6143, 6144, 1 << 40}).Draw(t, l+"-off"), Whence: rapid.IntRange(0, 2).Draw(t, l+"-w")})
+		if rapid.IntRange(0, 5).Draw(t, l+"-far") == 0 {
+			c.Ops[len(c.Ops)-1].Off = int64(hx.GenHugeOffset(t, l+"-faroff") & (1<<63 - 1))
+		}
 	}
 	return c
 }
